@@ -91,6 +91,31 @@ func buildOps() []hop {
 		ok, err := otp.ValidateTOTP(hopSec, ref.HOTP(hopKey, 2, 6, 1), time.Unix(59, 0), &otp.Param{Digits: 6, Algorithm: otp.SHA256, Period: 30, Skew: 1})
 		return fmt.Sprint(ok, "|", errStr(err)), nil
 	}, "true|<nil>"})
+	// validations accepted at a DISTANCE inside a wide window, and validations of the very same distant codes under a
+	// narrower window (verdict false): whatever an accepted validation remembers (a drift hint, the last matching
+	// counter) must not widen a later, narrower window
+	for _, d := range []int64{3, -2} {
+		d := d
+		wide := uint(3)
+		tcode := ref.HOTP(hopKey, uint64(int64(ref.Step(1111111109, 30))+d), 6, 0)
+		ops = append(ops, hop{fmt.Sprintf("totp-validate-hit(%+d)-skew3", d), func() (string, []string) {
+			ok, err := otp.ValidateTOTP(hopSec, tcode, time.Unix(1111111109, 0), &otp.Param{Digits: 6, Period: 30, Skew: wide})
+			return fmt.Sprint(ok, "|", errStr(err)), nil
+		}, "true|<nil>"})
+		ops = append(ops, hop{fmt.Sprintf("totp-validate-miss(%+d)-skew1", d), func() (string, []string) {
+			ok, err := otp.ValidateTOTP(hopSec, tcode, time.Unix(1111111109, 0), &otp.Param{Digits: 6, Period: 30, Skew: 1})
+			return fmt.Sprint(ok, "|", err != nil), nil
+		}, "false|true"})
+		hcode := ref.HOTP(hopKey, uint64(50+d), 6, 0)
+		ops = append(ops, hop{fmt.Sprintf("hotp-validate-hit(%+d)-skew3", d), func() (string, []string) {
+			ok, err := otp.ValidateHOTP(hopSec, hcode, 50, &otp.Param{Digits: 6, Skew: wide})
+			return fmt.Sprint(ok, "|", errStr(err)), nil
+		}, "true|<nil>"})
+		ops = append(ops, hop{fmt.Sprintf("hotp-validate-miss(%+d)-skew1", d), func() (string, []string) {
+			ok, err := otp.ValidateHOTP(hopSec, hcode, 50, &otp.Param{Digits: 6, Skew: 1})
+			return fmt.Sprint(ok, "|", err != nil), nil
+		}, "false|true"})
+	}
 	// REFUSED calls of every family (each leaves through an early return of its own): what an early exit hands back
 	// to a pool, or leaves half-done, meets the calls that follow
 	ops = append(ops, hop{"refused-calls", func() (string, []string) {
